@@ -317,9 +317,17 @@ def applyPre : PreFn → V → Except ExcCls V
 
 /-! ### MatchesSetwise: greedy assignment in set-iteration order -/
 
+/- stable insertion sort of keyed items (structural, so that closed terms evaluate by `decide`) -/
+def insertKey {α : Type} (x : Nat × α) : List (Nat × α) → List (Nat × α)
+  | [] => [x]
+  | y :: ys => if x.1 < y.1 then x :: y :: ys else y :: insertKey x ys
+def sortKey {α : Type} : List (Nat × α) → List (Nat × α)
+  | [] => []
+  | x :: xs => insertKey x (sortKey xs)
+
 /-- iteration order of `set(self.matchers)`: matcher indices by ascending slot -/
 def orderIdx (keys : List Nat) (n : Nat) : List Nat :=
-  (((List.range n).map fun i => (keys.getD i 0, i)).mergeSort (fun a b => a.1 ≤ b.1)).map (·.2)
+  (sortKey ((List.range n).map fun i => (keys.getD i 0, i))).map (·.2)
 
 inductive Pick | found (i : Nat) | absent | err (c : ExcCls)
 
@@ -379,19 +387,11 @@ def getAttr (v : V) (a : Nat) : Option V :=
   | .obj _ attrs vs => lookupKey a attrs vs
   | _ => none
 
-def insertBy (x : Nat × Option Verdict) : List (Nat × Option Verdict) → List (Nat × Option Verdict)
-  | [] => [x]
-  | y :: ys => if x.1 < y.1 then x :: y :: ys else y :: insertBy x ys
-/-- `sorted(self.kws.items())` applied to the results (stable insertion sort by attribute) -/
-def sortByAttr : List (Nat × Option Verdict) → List (Nat × Option Verdict)
-  | [] => []
-  | x :: xs => insertBy x (sortByAttr xs)
-
 /-- `MatchesStructure.match`: `getattr` of every attribute first (`AttributeError` if one is missing),
-then `MatchesListwise` over the attributes in sorted order -/
+then `MatchesListwise` over the attributes in sorted order (`sorted(self.kws.items())`) -/
 def structImpl (attrs : List Nat) (rs : List (Option Verdict)) : Verdict :=
   if rs.any Option.isNone || rs.length != attrs.length then .raised .attributeError
-  else seqAll false (somes ((sortByAttr (attrs.zip rs)).map (·.2)))
+  else seqAll false (somes ((sortKey (attrs.zip rs)).map (·.2)))
 
 /-- `MatchesListwise.match` given the per-position results -/
 def listwiseImpl (firstOnly : Bool) (n : Nat) (rs : List Verdict) (v : V) : Verdict :=
